@@ -138,6 +138,38 @@ class C11Oracle(Oracle):
                     sim.violate(step, "cli_rows", {"axis": axis, "row": s_, "input": i, "count": got, "expected": n, "zone": sim.env.zone})
                     return
         sim.stats["probe:cli_count_tables"] += 1
+        # the same table for a score that is undefined for an empty slice: still one row per slice, in
+        # axis order, 'nan' exactly where no case is left
+        argv2 = ["verif"] + list(sim.names[:sim.n_inputs]) + ["-m", "obs", "-x", axis.lower(), "-type", "csv"]
+        buf = io.StringIO()
+        try:
+            with contextlib.redirect_stdout(buf):
+                verif.driver.run(argv2)
+        except (SystemExit, Exception) as e:
+            sim.violate(step, "cli_rows", {"axis": axis, "error": classify(e), "zone": sim.env.zone, "table": "mean"})
+            return
+        lines2 = [l for l in buf.getvalue().splitlines() if l and not l.startswith("\x1b")]
+        rows2 = [l.split(",") for l in lines2[1:]]
+        if len(rows2) != len(rows):
+            sim.violate(step, "cli_rows", {"axis": axis, "rows": len(rows2), "expected": len(rows), "table": "mean", "zone": sim.env.zone})
+            return
+        for s_, (rc, rm) in enumerate(zip(rows, rows2)):
+            if rc[:ndesc] != rm[:ndesc]:
+                sim.violate(step, "cli_rows", {"axis": axis, "row": s_, "label": rm[:ndesc], "expected": rc[:ndesc], "table": "mean", "zone": sim.env.zone})
+                return
+            for i in range(sim.n_inputs):
+                try:
+                    empty = float(rc[ndesc + i]) == 0
+                    isnan = rm[ndesc + i].strip().lower() == "nan"
+                except (IndexError, ValueError):
+                    sim.violate(step, "cli_rows", {"axis": axis, "row": s_, "error": "unparsable", "table": "mean", "zone": sim.env.zone})
+                    return
+                if empty != isnan:
+                    sim.violate(step, "cli_rows", {"axis": axis, "row": s_, "input": i, "count": rc[ndesc + i], "mean": rm[ndesc + i],
+                                                   "table": "mean", "zone": sim.env.zone})
+                    return
+        if any(float(r[ndesc]) == 0 for r in rows):
+            sim.stats["probe:cli_tables_with_empty_slice"] += 1
 
     def expected_axis(self, sim, data, axis):
         """(expected axis values, function case -> slice value) from the model and the dataset's public dims."""
